@@ -35,6 +35,9 @@ pub struct Geom {
     pub root_cluster: u32,
     pub fsinfo: FsInfoInit,
     pub high_nibbles: bool,
+    /// FAT32 BPB_ExtFlags (active FAT number, bit 7 = mirroring disabled); the library under test and
+    /// the statement of C16 know nothing of it: all copies are kept identical regardless
+    pub ext_flags: u16,
     pub neighbours: bool,
     pub label: [u8; 11],
     /// randomise the end-of-chain value among the legal ones
@@ -100,7 +103,7 @@ impl Geom {
     }
     pub fn describe(&self) -> String {
         format!(
-            "{} clusters={} spc={} reserved={} fats={} root_entries={} fat_size={} slack={} tail={} slot={} start={} type={:#04x} total32={} rootclus={} fsinfo={:?} nibbles={}",
+            "{} clusters={} spc={} reserved={} fats={} root_entries={} fat_size={} slack={} tail={} slot={} start={} type={:#04x} total32={} rootclus={} fsinfo={:?} nibbles={} extflags={:#06x}",
             if self.fat32 { "FAT32" } else { "FAT16" },
             self.clusters,
             self.spc,
@@ -116,7 +119,8 @@ impl Geom {
             self.force_total32,
             self.root_cluster,
             self.fsinfo,
-            self.high_nibbles
+            self.high_nibbles,
+            self.ext_flags
         )
     }
     pub fn hash(&self) -> u64 {
@@ -140,6 +144,7 @@ impl Geom {
             root_cluster: 2,
             fsinfo: FsInfoInit::Correct,
             high_nibbles: false,
+            ext_flags: 0,
             neighbours: true,
             label: *b"           ",
             eoc_variants: false,
@@ -167,7 +172,14 @@ impl Geom {
             _ => lo + rng.below(3 * per as u64) as u32,
         };
         let mut g = if fat32 { Geom::base_fat32(clusters, spc) } else { Geom::base_fat16(clusters, spc) };
-        g.nfats = if rng.chance(1, 3) { 1 } else { 2 };
+        // (three and four copies are legal too; the library keeps the first two / first one current,
+        // C16 is quantified over one and two copies only)
+        g.nfats = match rng.below(14) {
+            0..=3 => 1,
+            4..=11 => 2,
+            12 => 3,
+            _ => 4,
+        };
         g.reserved = if fat32 { *rng.pick(&[2u32, 7, 32, 33]) } else { *rng.pick(&[1u32, 1, 2, 8, 32]) };
         g.root_entries = if fat32 { 0 } else { *rng.pick(&[16u32, 32, 112, 224, 512]) };
         g.fat_extra = if rng.chance(1, 4) { 1 + rng.below(2) as u32 } else { 0 };
@@ -189,6 +201,7 @@ impl Geom {
                 _ => FsInfoInit::Correct,
             };
             g.high_nibbles = rng.chance(1, 3);
+            g.ext_flags = if rng.chance(1, 4) { *rng.pick(&[0x0080u16, 0x0081, 0x0001, 0x008F]) } else { 0 };
         }
         g.eoc_variants = rng.chance(1, 2);
         g.neighbours = true;
@@ -414,6 +427,7 @@ impl Fmt {
         b[28..32].copy_from_slice(&g.part_start.to_le_bytes());
         if g.fat32 {
             b[36..40].copy_from_slice(&g.fat_size().to_le_bytes());
+            b[40..42].copy_from_slice(&g.ext_flags.to_le_bytes());
             b[44..48].copy_from_slice(&g.root_cluster.to_le_bytes());
             b[48..50].copy_from_slice(&1u16.to_le_bytes());
             let backup: u16 = if g.reserved > 6 { 6 } else { 0 };
